@@ -43,11 +43,23 @@ def plan(tier, seed):
                 parts.append(Part(H, "merge", {"n": n, "u": u, "cls": c, "fu": fu}, 900 if tier == "quick" else 4000, 120, ob, weight=n))
     for c in ("ih5", "mf"):
         parts.append(Part(H, "refused", {"cls": c}, 120, 60, "merge refused with uncommitted changes; nothing left behind"))
+    for c in ("ih5", "mf"):
+        parts.append(Part(H, "after_refused_commit", {"cls": c}, 120, 60, "a refused commit does not make a later merge fail"))
     parts.append(Part(H, "refused_stub", {}, 120, 60, "merge refused when the set contains a stub (fresh, reopened, or with a patch on top)"))
     return parts
 
 
 def confirm(part, kwargs, native):
+    if part.func == "after_refused_commit":
+        script = AFTER_REFUSED.replace("__CLS__", repr(part.sel.get("cls", "mf"))).replace("__KW__", repr(kwargs))
+        from vt import history as HI
+        rc, out = HI.run_script(script)
+        if rc == 0:
+            return {"confirmed": False, "what": "does not reproduce on real h5py files"}
+        if rc != 1:
+            return {"harness_error": "replay script crashed: " + out[-600:]}
+        return {"confirmed": True, "key": "merge-after-refused-commit", "script": script,
+                "what": "merge fails after a refused commit_patch(): " + " | ".join(l for l in out.splitlines() if l.startswith("MISMATCH"))[:400]}
     if part.func != "merge":
         return {"confirmed": True, "key": part.label, "what": f"{part.func} {kwargs}"}
     import vt.part as P
@@ -81,3 +93,36 @@ def confirm(part, kwargs, native):
     kind = mism[0].split("'")[1] if mism else "?"
     return {"confirmed": True, "key": "merge:" + kind, "script": script, "history": hist,
             "what": f"source history {hist}, merge: " + " | ".join(mism)[:500]}
+
+
+AFTER_REFUSED = r'''# replay on real h5py: a refused commit_patch() followed by merge_files()
+import shutil, sys, tempfile
+from pathlib import Path
+import numpy as np
+if not hasattr(np, "cumproduct"):
+    np.cumproduct = np.cumprod
+from metador_core.ih5.record import IH5Record
+from metador_core.ih5.manifest import IH5MFRecord
+C = {"ih5": IH5Record, "mf": IH5MFRecord}[__CLS__]
+kw = __KW__
+tmp = tempfile.mkdtemp(prefix="vt_arc_")
+bad = []
+try:
+    r = C(tmp + "/rec", "w"); r["a"] = 1; r.commit_patch(); r.create_patch(); r["b"] = 2; r.commit_patch()
+    if kw["mode_r"]:
+        r.close(); r = C(tmp + "/rec", "r")
+    for _ in range(2 if kw["twice"] else 1):
+        try:
+            r.commit_patch(); bad.append(("commit with nothing to commit was not refused",))
+        except ValueError:
+            pass
+    try:
+        r.merge_files(Path(tmp) / "mrg")
+    except Exception as e:
+        bad.append(("merge fails after a refused commit", type(e).__name__, str(e)[:150]))
+finally:
+    shutil.rmtree(tmp, ignore_errors=True)
+for b in bad:
+    print("MISMATCH:", b)
+sys.exit(1 if bad else 0)
+'''
